@@ -74,10 +74,12 @@ func (fr *Frame) call(x *ssa.Call, c *ssa.CallCommon, h Heap) Heap {
 			short = c.Method.Name()
 		}
 		if cls := fr.fc.AtCall[short]; len(cls) > 0 {
-			env := fr.newSpecEnv(h, fr.entry)
-			for _, prm := range fr.fn.Params {
-				env.vars[prm.Name()] = &SVal{V: fr.vals[prm], T: prm.Type()}
+			if len(fr.fc.Protocols) > 0 {
+				// assertions at call sites must be stable under the other threads' actions
+				h = fr.envStep(h)
 			}
+			env := fr.newSpecEnv(h, fr.entry)
+			fr.bindParams(env)
 			// the callee's parameter names shadow the caller's
 			var sig *types.Signature
 			if callee != nil {
@@ -108,6 +110,11 @@ func (fr *Frame) call(x *ssa.Call, c *ssa.CallCommon, h Heap) Heap {
 				fr.oblig("callsite", "", "at."+short+"."+label, f, cl.Src, c.Pos())
 			}
 		}
+	}
+	// a deferred closure of the form `if r := recover(); r != nil { ... }` does nothing on the normal
+	// path (recover() returns nil there); its contract describes the panic path only
+	if x == nil && callee != nil && isRecoverOnlyClosure(callee) {
+		return h
 	}
 	// deferred closures and explicitly inlined callees: translate the body here
 	if callee != nil && len(callee.Blocks) > 0 && fr.depth < 4 {
@@ -524,26 +531,48 @@ func (fr *Frame) intrinsic(key string, callee *ssa.Function, c *ssa.CallCommon, 
 			panic(genErr("atomic op on a pointer without address form"))
 		}
 		fr.nilCheck(a, c.Pos(), key)
+		// shared word under a rely/guarantee protocol: the environment acts first
+		var pi *protoInst
+		var pre []*SVal
+		ord := 0
+		if fr.top {
+			if pi = fr.protoFor(a, h); pi != nil {
+				fr.oblig("instance", "", "atomic.instance", fmt.Sprintf("(= %s %s)", a.Base, pi.instTerm(g)), "atomic operation on the protocol instance "+pi.pr.Name, c.Pos())
+				ord = fr.atomicOrdinal(c)
+				h = fr.envStep(h)
+				pre = fr.protoState(pi, h)
+			}
+		}
+		done := func(nh Heap, res *Val, rt types.Type) (Heap, bool) {
+			if pi != nil {
+				var r *SVal
+				if res != nil {
+					r = &SVal{V: res, T: rt}
+				}
+				nh = fr.afterAtomic(pi, ord, pre, nh, r, c)
+			}
+			return nh, true
+		}
 		cur := g.define(fr.prefix+"atomic_old", g.sortOf(a.finalType()), g.load(h, a))
 		switch kind {
 		case "Load":
 			setRes(&Val{T: cur})
-			return h, true
+			return done(h, &Val{T: cur}, a.finalType())
 		case "Store":
-			return g.store(h, a, args[1].T), true
+			return done(g.store(h, a, args[1].T), nil, nil)
 		case "Add":
 			nv := g.define(fr.prefix+"atomic_new", g.sortOf(a.finalType()), g.iadd(cur, args[1].T))
 			fr.overflowOblig(nv, a.finalType(), key, c.Pos())
 			setRes(&Val{T: nv})
-			return g.store(h, a, nv), true
+			return done(g.store(h, a, nv), &Val{T: nv}, a.finalType())
 		case "Swap":
 			setRes(&Val{T: cur})
-			return g.store(h, a, args[1].T), true
+			return done(g.store(h, a, args[1].T), &Val{T: cur}, a.finalType())
 		case "CompareAndSwap":
 			ok := g.define(fr.prefix+"cas_ok", "Bool", fmt.Sprintf("(= %s %s)", cur, args[1].T))
 			setRes(&Val{T: ok})
 			nh := g.store(h, a, ite(ok, args[2].T, cur))
-			return nh, true
+			return done(nh, &Val{T: ok}, types.Typ[types.Bool])
 		}
 	}
 	switch key {
@@ -610,6 +639,10 @@ func (fr *Frame) applyContract(fc *FuncContract, callee *ssa.Function, c *ssa.Ca
 	for _, en := range fc.Ensures {
 		f := post.boolTerm(en.Expr)
 		fr.assume(f, "ensures of "+fc.Name+": "+en.Src)
+	}
+	for _, en := range fc.EnsuresGhost {
+		f := post.boolTerm(en.Expr)
+		fr.assume(f, "ghost ensures of "+fc.Name+": "+en.Src)
 	}
 	return nh
 }
@@ -751,4 +784,52 @@ func (fr *Frame) mapLenFacts(mt *types.Map, m string, h Heap) {
 	g.defs = append(g.defs, and(g.ile(g.ilit(0), card), g.ile(card, g.maxLen())))
 	g.defs = append(g.defs, fmt.Sprintf("(forall ((k %s)) (! (=> (select (select %s %s) k) %s) :pattern ((select (select %s %s) k))))", ks, darr, m, g.ilt(g.ilit(0), card), darr, m))
 	g.defs = append(g.defs, fmt.Sprintf("(=> %s (select (select %s %s) %s))", g.ilt(g.ilit(0), card), darr, m, w))
+}
+
+// isRecoverOnlyClosure: the function's entry block ends in `if recover() != nil` and the other
+// branch returns immediately.
+func isRecoverOnlyClosure(fn *ssa.Function) bool {
+	if fn.Parent() == nil || len(fn.Blocks) == 0 {
+		return false
+	}
+	b := fn.Blocks[0]
+	var rec ssa.Value
+	for _, in := range b.Instrs {
+		switch x := in.(type) {
+		case *ssa.Call:
+			if bi, ok := x.Common().Value.(*ssa.Builtin); ok && bi.Name() == "recover" {
+				rec = x
+				continue
+			}
+			return false
+		case *ssa.DebugRef, *ssa.BinOp, *ssa.If, *ssa.UnOp, *ssa.Alloc, *ssa.Store:
+			continue
+		default:
+			return false
+		}
+	}
+	if rec == nil {
+		return false
+	}
+	ifi, ok := b.Instrs[len(b.Instrs)-1].(*ssa.If)
+	if !ok {
+		return false
+	}
+	cmp, ok := ifi.Cond.(*ssa.BinOp)
+	if !ok || (cmp.X != rec && cmp.Y != rec) {
+		return false
+	}
+	// the branch taken when recover() == nil must only return
+	els := b.Succs[1]
+	if cmp.Op.String() == "==" {
+		els = b.Succs[0]
+	}
+	for _, in := range els.Instrs {
+		switch in.(type) {
+		case *ssa.Return, *ssa.RunDefers, *ssa.DebugRef:
+		default:
+			return false
+		}
+	}
+	return true
 }
